@@ -20,9 +20,9 @@
 #include "pixman-private.h"
 #include "pixhelp.h"
 
-enum { K_ARGB, K_565, K_C8, K_LIN, K_RAD, K_CON, NKINDS };
-static const char *KINDN[NKINDS] = { "bits-a8r8g8b8", "bits-r5g6b5", "bits-c8-indexed", "linear-gradient", "radial-gradient", "conical-gradient" };
-#define IS_BITS(k) ((k) <= K_C8)
+enum { K_ARGB, K_565, K_C8, K_ARGB1, K_LIN, K_RAD, K_CON, NKINDS };     /* K_ARGB1: a 1x1 a8r8g8b8 image (with a repeat mode the library treats it as a single colour) */
+static const char *KINDN[NKINDS] = { "bits-a8r8g8b8", "bits-r5g6b5", "bits-c8-indexed", "bits-a8r8g8b8-1x1", "linear-gradient", "radial-gradient", "conical-gradient" };
+#define IS_BITS(k) ((k) <= K_ARGB1)
 
 enum { F_XF, F_FIL, F_REP, F_CLIP, F_CSRC, F_CCL, F_AMAP, F_CA, F_ACC, F_DITH, F_DOFF, F_PAL, F_PAST, NFIELDS };   /* F_PAST: an episode in the image's life that leaves none of its properties changed */
 static const int NVAL[NFIELDS] = { 10, 6, 4, 4, 2, 2, 4, 2, 2, 3, 2, 5, 3 };
@@ -57,7 +57,7 @@ static pixman_indexed_t *pal[3];
 static uint32_t pristine[NKINDS][LW * LH + 8];     /* raw words of L's pixel buffer */
 static uint8_t pristine_a[LH * 8];                 /* alpha map a8, stride 8 */
 static int lstride[NKINDS], lbpp[NKINDS];
-static const pixman_format_code_t LFMT[3] = { PIXMAN_a8r8g8b8, PIXMAN_r5g6b5, PIXMAN_c8 };
+static const pixman_format_code_t LFMT[4] = { PIXMAN_a8r8g8b8, PIXMAN_r5g6b5, PIXMAN_c8, PIXMAN_a8r8g8b8 };
 
 static uint32_t translucent(int i)
 {
@@ -84,11 +84,11 @@ static void ctx_init(void)
     for (int w = 0; w < 3; w++) { pal[w] = malloc(sizeof(pixman_indexed_t)); make_palette(pal[w], w == 1); }
     for (int i = 128; i < 256; i++) pal[2]->rgba[i] = pal[1]->rgba[i];
     for (int i = 16384; i < 32768; i++) pal[2]->ent[i] = pal[1]->ent[i];
-    for (int k = 0; k < 3; k++) {
+    for (int k = 0; k < 4; k++) {
         lbpp[k] = PIXMAN_FORMAT_BPP(LFMT[k]); lstride[k] = ph_stride_for(lbpp[k], LW) + 4;
         memset(pristine[k], 0x5a, sizeof pristine[k]);
         for (int y = 0; y < LH; y++) for (int x = 0; x < LW; x++) {
-            int i = y * LW + x; uint32_t p = k == 0 ? translucent(i + 1) : k == 1 ? (uint32_t)((i * 2654435761u) >> 11) & 0xffff : (uint32_t)(i * 29 + 3) & 0xff;
+            int i = y * LW + x; uint32_t p = (k == 0 || k == K_ARGB1) ? translucent(i + 1) : k == 1 ? (uint32_t)((i * 2654435761u) >> 11) & 0xffff : (uint32_t)(i * 29 + 3) & 0xff;
             ph_put_pixel((uint8_t *)pristine[k] + (size_t)y * lstride[k], lbpp[k], x, p);
         }
     }
@@ -117,7 +117,7 @@ static obj_t obj_create(int kind, int palette)
     if (IS_BITS(kind)) {
         o.bufsz = (size_t)lstride[kind] * LH;
         o.buf = malloc(o.bufsz); memcpy(o.buf, pristine[kind], o.bufsz);
-        o.img = pixman_image_create_bits(LFMT[kind], LW, LH, o.buf, lstride[kind]);
+        o.img = pixman_image_create_bits(LFMT[kind], kind == K_ARGB1 ? 1 : LW, kind == K_ARGB1 ? 1 : LH, o.buf, lstride[kind]);      /* the 1x1 kind is the top-left pixel of the same buffer */
         if (kind == K_C8) {
             /* the object's own palette (the library keeps the pointer, not a copy: the caller may edit the table) */
             o.ownpal = malloc(sizeof(pixman_indexed_t)); memcpy(o.ownpal, pal[0], sizeof(pixman_indexed_t));
@@ -602,6 +602,8 @@ int main(int argc, char **argv)
     struct { int kind; const int *u; int variants; } plan[8]; int np = 0;
     plan[np].kind = K_ARGB; plan[np].u = th ? U_ARGB_T : U_ARGB_Q; plan[np].variants = th ? 3 : 1; np++;
     plan[np].kind = K_C8; plan[np].u = U_C8; plan[np].variants = th ? 3 : 1; np++;
+    static const int U_ARGB1[NFIELDS]  = { 2, 2, 4, 1, 1, 1, 3, 1, 2, 1, 1, 1, 1 };     /*     96 */
+    plan[np].kind = K_ARGB1; plan[np].u = U_ARGB1; plan[np].variants = 1; np++;
     if (th) { plan[np].kind = K_565; plan[np].u = U_565_T; plan[np].variants = 3; np++; }
     plan[np].kind = K_LIN; plan[np].u = U_GRAD; plan[np].variants = th ? 3 : 1; np++;
     plan[np].kind = K_RAD; plan[np].u = U_GRAD; plan[np].variants = th ? 3 : 1; np++;
